@@ -27,7 +27,7 @@ func init() {
 		Assumptions: []string{"a node cordoned after the list was taken is outside the statement (pre-scan snapshot)"}})
 	register(&propSpec{ID: "C10", Run: checkC10,
 		Explanation: "The grace reaper's append implies ¬protected(n) where protected is the existential search for key atlassian.com/no-delete with a non-empty value; the protected edge continues the loop (no break/return), the loop's only exit is exhaustion, and safeFromDeletion has no caller besides the grace reaper, so the annotation affects neither tainting nor counting.",
-		RuleText:    "R1 guard implication, R2 predicate shape, R3 continue-not-break, R4 callers / readers of the annotation key, R5 deletion flow, R6 listed objects reach the guard as the API server sent them (no transform, no writes), R7 the force list holds only force-tainted nodes",
+		RuleText:    "R1 guard implication, R2 predicate shape, R3 continue-not-break, R4 callers / readers of the annotation key, R5 deletion flow, R6 listed objects reach the guard as the API server sent them (no transform, no writes), R7 the force list holds only force-tainted nodes, R8 taint writes change nothing but Spec.Taints of the freshly fetched node, so the annotation survives tainting (C15.R1 / R2 / R7)",
 		Assumptions: []string{"the force-removal path is outside the statement (\"and no force-removal taint\")"}})
 }
 
@@ -77,7 +77,7 @@ func checkC11(ck *Check) {
 			ck.undecided("C11.R1", ra.Key, ck.P.instrPos(ra.Site.Call), funcID(ra.Reaper), "¬dry(g)", err.Error())
 			continue
 		}
-		if ck.entails("C11.R1", ra.Key, ra.Site.Call, ra.Ctx.PC(ra.Site.Call), req, "PC ⇒ ¬(c.Opts.DryMode ∨ g.Opts.DryMode) at the append feeding the delete step") {
+		if ck.entails("C11.R1", ra.Key, ra.Site.Call, ra.PC(), req, "PC ⇒ ¬(c.Opts.DryMode ∨ g.Opts.DryMode) at the append feeding the delete step") {
 			guarded++
 		}
 	}
@@ -370,7 +370,7 @@ func checkC01(ck *Check) {
 		}
 		okv := isElemOf(ra.Elem, func(t *Term) bool { return ck.isScaleOptsField(t, listName) })
 		ck.cond(okv, "C01.R2", ra.Key+"/elem", pos, fn, "the appended node is the loop element of opts."+listName, ra.Elem.String(), "a node from another list can be handed to the delete step")
-		pc := ra.Ctx.PC(ra.Site.Call)
+		pc := ra.PC()
 		empty := ck.emptyFormula(ra.Ctx, ra.Site.Call, ra.Elem, g)
 		if ra.Force {
 			nForce++
@@ -456,9 +456,33 @@ func (ck *Check) classification(rule string, want map[int]string) {
 		}
 	}
 	count := 0
+	seenVA := map[string]bool{}
 	for idx, role := range want {
 		seen := map[*ssa.Call]bool{}
 		for _, r := range rets {
+			// result lists filled by a local closure (`place(node, forced, tainted)` appending to the
+			// named results): one append per call of the closure and store in it
+			if vas, ok := ck.closureAppends(fn, ctx, r.Results[idx]); ok {
+				for _, va := range vas {
+					key := fmt.Sprintf("classifier/result%d/append@%s", idx, va.key)
+					if seenVA[key] {
+						continue
+					}
+					seenVA[key] = true
+					n := va.elem
+					if !isElemOf(n, func(t *Term) bool { return t.Kind == "param" }) {
+						ck.fail(rule, key+"/elem", ck.P.instrPos(va.call), funcID(fn), "the classified node is the loop element of the node list parameter", n.String(), "")
+						continue
+					}
+					cordoned := Atom(ck.nodeField(n, "Spec", "Unschedulable"))
+					tainted := boolResultFormula(ctx, a.GetTaint, []*Term{n}, 1)
+					forced := boolResultFormula(ctx, a.GetForceTaint, []*Term{n}, 1)
+					req, text := classReq(role, dry, cordoned, tainted, forced)
+					count++
+					ck.entails(rule, key, va.call, va.pc, req, text)
+				}
+				continue
+			}
 			pr := sliceProv(r.Results[idx])
 			for _, root := range pr.Roots {
 				if !makeSliceEmpty(root) {
@@ -483,24 +507,138 @@ func (ck *Check) classification(rule string, want map[int]string) {
 				cordoned := Atom(ck.nodeField(n, "Spec", "Unschedulable"))
 				tainted := boolResultFormula(ctx, a.GetTaint, []*Term{n}, 1)
 				forced := boolResultFormula(ctx, a.GetForceTaint, []*Term{n}, 1)
-				var req *Formula
-				var text string
-				switch role {
-				case "untainted":
-					req, text = Or(dry, And(Not(cordoned), Not(tainted), Not(forced))), "PC ⇒ dry ∨ (¬cordoned(n) ∧ ¬tainted(n) ∧ ¬forced(n))"
-				case "tainted":
-					req, text = Or(dry, And(Not(cordoned), tainted, Not(forced))), "PC ⇒ dry ∨ (¬cordoned(n) ∧ tainted(n) ∧ ¬forced(n))"
-				case "force":
-					req, text = Or(dry, And(Not(cordoned), forced)), "PC ⇒ dry ∨ (¬cordoned(n) ∧ forced(n))"
-				case "cordon":
-					req, text = Or(dry, Not(cordoned)), "PC ⇒ dry ∨ ¬cordoned(n)"
-				}
+				req, text := classReq(role, dry, cordoned, tainted, forced)
 				count++
 				ck.entails(rule, key, ap.Call, ctx.PC(ap.Call), req, text)
 			}
 		}
 	}
 	ck.floor(rule, "classifier append sites", count, len(want))
+}
+
+func classReq(role string, dry, cordoned, tainted, forced *Formula) (*Formula, string) {
+	switch role {
+	case "untainted":
+		return Or(dry, And(Not(cordoned), Not(tainted), Not(forced))), "PC ⇒ dry ∨ (¬cordoned(n) ∧ ¬tainted(n) ∧ ¬forced(n))"
+	case "tainted":
+		return Or(dry, And(Not(cordoned), tainted, Not(forced))), "PC ⇒ dry ∨ (¬cordoned(n) ∧ tainted(n) ∧ ¬forced(n))"
+	case "force":
+		return Or(dry, And(Not(cordoned), forced)), "PC ⇒ dry ∨ (¬cordoned(n) ∧ forced(n))"
+	case "cordon":
+		return Or(dry, Not(cordoned)), "PC ⇒ dry ∨ ¬cordoned(n)"
+	}
+	return FFalse, "unknown role"
+}
+
+// virtualAppend: an append to a result list performed by a local closure, seen from one of the
+// closure's calls: the appended node, the call, and the condition under which it happens.
+type virtualAppend struct {
+	call *ssa.Call
+	elem *Term
+	pc   *Formula
+	key  string
+}
+
+// closureAppends: v is the load of a local (a named result) that local closures of fn fill:
+// every store to it is `*x = append(*x, <one parameter of the closure>)` inside a closure that fn
+// only calls (never stores or passes on), and fn itself stores nothing but nil into it. Each
+// (call of the closure, store) pair is an append: the element is the call's argument, the
+// condition the call's path condition and the store's path condition in the closure with the
+// closure's parameters bound to the arguments (boolean arguments as formulas).
+func (ck *Check) closureAppends(fn *ssa.Function, ctx *Ctx, v ssa.Value) ([]virtualAppend, bool) {
+	ld, ok := v.(*ssa.UnOp)
+	if !ok || ld.Op != token.MUL {
+		return nil, false
+	}
+	local, ok := ld.X.(*ssa.Alloc)
+	if !ok || local.Referrers() == nil {
+		return nil, false
+	}
+	var out []virtualAppend
+	closures := 0
+	for _, r := range *local.Referrers() {
+		switch x := r.(type) {
+		case *ssa.DebugRef, *ssa.UnOp:
+		case *ssa.Store:
+			if x.Addr != ssa.Value(local) {
+				return nil, false
+			}
+			if k, isK := x.Val.(*ssa.Const); !(isK && k.IsNil()) && !makeSliceEmpty(x.Val) {
+				return nil, false // fn appends to it itself: the ordinary provenance applies
+			}
+		case *ssa.MakeClosure:
+			k, _ := x.Fn.(*ssa.Function)
+			if k == nil || k.Blocks == nil {
+				return nil, false
+			}
+			closures++
+			var fv *ssa.FreeVar
+			for i, b := range x.Bindings {
+				if b == ssa.Value(local) && i < len(k.FreeVars) {
+					fv = k.FreeVars[i]
+				}
+			}
+			if fv == nil || x.Referrers() == nil {
+				return nil, false
+			}
+			// the closure is only called
+			var calls []*ssa.Call
+			for _, u := range *x.Referrers() {
+				switch y := u.(type) {
+				case *ssa.DebugRef:
+				case *ssa.Call:
+					if y.Common().Value != ssa.Value(x) {
+						return nil, false
+					}
+					calls = append(calls, y)
+				default:
+					return nil, false
+				}
+			}
+			for _, call := range calls {
+				args := make([]*Term, len(call.Common().Args))
+				for i, av := range call.Common().Args {
+					if isBool(av.Type()) {
+						args[i] = formulaTerm(ctx.Formula(av))
+					} else {
+						args[i] = ctx.Term(av)
+					}
+				}
+				kc := ctx.child(k, call, args)
+				kc.depth = 0
+				// captured variables the closure only reads keep their values; written ones stay its own
+				for i, f2 := range k.FreeVars {
+					if i < len(x.Bindings) && readOnlyFreeVar(k, f2) {
+						if _, isAlloc := x.Bindings[i].(*ssa.Alloc); !isAlloc {
+							kc.bind[f2] = ctx.Term(x.Bindings[i])
+						}
+					}
+				}
+				ord := 0
+				for _, b := range k.Blocks {
+					for _, in := range b.Instrs {
+						st, isSt := in.(*ssa.Store)
+						if !isSt || st.Addr != ssa.Value(fv) {
+							continue
+						}
+						pr := sliceProv(st.Val)
+						if len(pr.Appends) != 1 || pr.Appends[0].Spread != nil || len(pr.Appends[0].Elems) != 1 || len(pr.Roots) != 1 {
+							return nil, false
+						}
+						if old, isLoad := pr.Roots[0].(*ssa.UnOp); !isLoad || old.X != ssa.Value(fv) {
+							return nil, false
+						}
+						out = append(out, virtualAppend{call: call, elem: kc.Term(pr.Appends[0].Elems[0]), pc: And(ctx.PC(call), kc.PC(st)),
+							key: fmt.Sprintf("%s>store#%d", ck.P.siteKey(call), ord)})
+						ord++
+					}
+				}
+			}
+		default:
+			return nil, false
+		}
+	}
+	return out, closures > 0
 }
 
 // classificationComplete: every uncordoned node without either escalator taint lands in the
@@ -518,13 +656,36 @@ func (ck *Check) classificationComplete(rule string) {
 		return
 	}
 	dry := Or(Atom(gl), Atom(gr))
-	have := FFalse
-	var n *Term
-	var loop *Loop
+	// the appends to result 0, grouped by the loop (the element) they classify
+	type group struct {
+		n    *Term
+		loop *Loop
+		have *Formula
+	}
+	groups := map[string]*group{}
+	var order []string
+	note := func(t *Term, at *ssa.Call, pc *Formula) {
+		if !isElemOf(t, func(x *Term) bool { return x.Kind == "param" }) {
+			return
+		}
+		g := groups[t.Key()]
+		if g == nil {
+			g = &group{n: t, loop: innermostLoop(fn, at.Block()), have: FFalse}
+			groups[t.Key()] = g
+			order = append(order, t.Key())
+		}
+		g.have = Or(g.have, pc)
+	}
 	seen := map[*ssa.Call]bool{}
 	for _, b := range fn.Blocks {
 		r, ok := b.Instrs[len(b.Instrs)-1].(*ssa.Return)
 		if !ok || len(r.Results) == 0 {
+			continue
+		}
+		if vas, ok := ck.closureAppends(fn, ctx, r.Results[0]); ok {
+			for _, va := range vas {
+				note(va.elem, va.call, va.pc)
+			}
 			continue
 		}
 		for _, ap := range sliceProv(r.Results[0]).Appends {
@@ -532,34 +693,39 @@ func (ck *Check) classificationComplete(rule string) {
 				continue
 			}
 			seen[ap.Call] = true
-			t := ctx.Term(ap.Elems[0])
-			if !isElemOf(t, func(x *Term) bool { return x.Kind == "param" }) {
-				continue
-			}
-			if n == nil {
-				n = t
-				loop = innermostLoop(fn, ap.Call.Block())
-			} else if n.Key() != t.Key() {
-				ck.undecided(rule, "classifier/untainted-complete", ck.P.instrPos(ap.Call), funcID(fn), "the untainted list is filled from one loop over the listed nodes", "several loops")
-				return
-			}
-			have = Or(have, ctx.PC(ap.Call))
+			note(ctx.Term(ap.Elems[0]), ap.Call, ctx.PC(ap.Call))
 		}
 	}
-	if n == nil || loop == nil {
+	if len(groups) == 0 {
 		ck.fail(rule, "classifier/untainted-complete", ck.P.position(fn.Pos()), funcID(fn), "the classifier appends listed nodes to its untainted list", "no such append", "")
 		return
 	}
-	cordoned := Atom(ck.nodeField(n, "Spec", "Unschedulable"))
-	tainted := boolResultFormula(ctx, a.GetTaint, []*Term{n}, 1)
-	forced := boolResultFormula(ctx, a.GetForceTaint, []*Term{n}, 1)
-	pre := And(loop.bodyPC(ctx), Not(dry), Not(cordoned), Not(tainted), Not(forced))
-	okv, why, err2 := Entails(pre, have)
-	if err2 != nil {
-		ck.undecided(rule, "classifier/untainted-complete", ck.P.position(fn.Pos()), funcID(fn), "¬dry ∧ ¬cordoned(n) ∧ ¬tainted(n) ∧ ¬forced(n) ⇒ n is appended to the untainted list", err2.Error())
-		return
+	live := 0
+	okAll, whyAll, haveAll := true, "", ""
+	for _, k := range order {
+		g := groups[k]
+		if g.loop == nil {
+			continue
+		}
+		cordoned := Atom(ck.nodeField(g.n, "Spec", "Unschedulable"))
+		tainted := boolResultFormula(ctx, a.GetTaint, []*Term{g.n}, 1)
+		forced := boolResultFormula(ctx, a.GetForceTaint, []*Term{g.n}, 1)
+		pre := And(g.loop.bodyPC(ctx), Not(dry), Not(cordoned), Not(tainted), Not(forced))
+		if sat, err := Satisfiable(pre); err == nil && !sat {
+			continue // a loop that only runs in dry mode
+		}
+		live++
+		okv, why, err2 := Entails(pre, g.have)
+		if err2 != nil {
+			ck.undecided(rule, "classifier/untainted-complete", ck.P.position(fn.Pos()), funcID(fn), "¬dry ∧ ¬cordoned(n) ∧ ¬tainted(n) ∧ ¬forced(n) ⇒ n is appended to the untainted list", err2.Error())
+			return
+		}
+		if !okv {
+			okAll, whyAll = false, why
+		}
+		haveAll += g.have.String() + "; "
 	}
-	ck.cond(okv, rule, "classifier/untainted-complete", ck.P.position(fn.Pos()), funcID(fn), "¬dry ∧ ¬cordoned(n) ∧ ¬tainted(n) ∧ ¬forced(n) ⇒ n is appended to the untainted list", have.String(), "an untainted node is withheld from the taint candidates (a younger node can be tainted while it is neither tainted nor attempted): "+why)
+	ck.cond(okAll && live > 0, rule, "classifier/untainted-complete", ck.P.position(fn.Pos()), funcID(fn), "¬dry ∧ ¬cordoned(n) ∧ ¬tainted(n) ∧ ¬forced(n) ⇒ n is appended to the untainted list", haveAll, "an untainted node is withheld from the taint candidates (a younger node can be tainted while it is neither tainted nor attempted): "+whyAll)
 }
 
 // nodeField builds n.<f1>.<f2> over the v1.Node struct types.
@@ -1039,7 +1205,7 @@ func checkC10(ck *Check) {
 		case vfld != nil:
 			// the verdict is a field of the result structure: the atom the reaper tests
 			prot = Atom(&Term{Kind: "opaque", Name: "protected?"})
-			for _, at := range ra.Ctx.PC(ra.Site.Call).Atoms() {
+			for _, at := range ra.PC().Atoms() {
 				if at.Kind == "field" && at.Obj == vfld && len(at.Args) == 1 && at.Args[0].callRoot() == a.SafeFromDeletion {
 					ct := at.Args[0]
 					for ct.Kind != "call" {
@@ -1056,7 +1222,7 @@ func checkC10(ck *Check) {
 			ck.undecided("C10.R1", ra.Key, ck.P.instrPos(ra.Site.Call), funcID(a.SafeFromDeletion), "the annotation predicate has a boolean verdict (a bool result, or one bool field of a result structure)", "no verdict found")
 			continue
 		}
-		ck.entails("C10.R1", ra.Key, ra.Site.Call, ra.Ctx.PC(ra.Site.Call), Not(prot), "PC ⇒ ¬protected(n) for the appended node n")
+		ck.entails("C10.R1", ra.Key, ra.Site.Call, ra.PC(), Not(prot), "PC ⇒ ¬protected(n) for the appended node n")
 	}
 	ck.floor("C10.R1", "grace reaper append sites", n, 1)
 
